@@ -358,6 +358,14 @@ func mkEnv(transport string, f c09.Fmt, ns string) (*env, error) {
 	e := &env{c: &C{r: &rec{}}, cl: &Client{}}
 	srv := jsonrpc.NewServer(jsonrpc.WithServerMethodNameFormatter(c09.Formatter(f)), secretDec)
 	srv.Register(ns, e.c)
+	// aliases whose names coincide with registered methods: an alias is a fallback for names nothing is
+	// registered under, so none of these may change which method a call runs
+	on := c09.OracleFormatter(f)
+	srv.AliasMethod(on(ns, "Int2"), on(ns, "Strs"))
+	srv.AliasMethod(on(ns, "Strs"), on(ns, "I64"))
+	srv.AliasMethod(on(ns, "R0"), on(ns, "NotThere"))
+	srv.AliasMethod(on(ns, "E0"), on(ns, "V0"))
+	srv.AliasMethod(on(ns, "Nest"), on(ns, "PtrPt"))
 	copts := []jsonrpc.Option{jsonrpc.WithMethodNameFormatter(c09.Formatter(f)), secretEnc}
 	var err error
 	var closer jsonrpc.ClientCloser
